@@ -26,8 +26,8 @@ ASSUMPTIONS = [
     "a swap is detected from the caller's arrays (train/validation rows exchanged), iterations from the public opf_accuracy calls",
 ]
 BUDGET = {
-    "quick": {"cases": 2100, "seconds": 60, "shards": 8},
-    "thorough": {"cases": 36000, "seconds": 540, "shards": 16},
+    "quick": {"cases": 8400, "seconds": 90, "shards": 8},
+    "thorough": {"cases": 300000, "seconds": 900, "shards": 16},
 }
 REQUIRED_OBS = ["relevance_checked", "learn_conservation_checked", "learn_best_model_checked", "learn_swaps_executed", "learn_best_not_last",
                 "prune_refit_checked", "prune_discarded", "first_in_order_conqueror"]
